@@ -748,10 +748,13 @@ pub(crate) fn check_if_response_is_matched(
 
     let (sampled_count, last_n_count) = if total_count - reorg_count > last_n_blocks {
         let difficulty_boundary: U256 = prev_request.difficulty_boundary().unpack();
-        let before_boundary_count = headers
-            .iter()
-            .take_while(|h| h.total_difficulty() < difficulty_boundary)
-            .count();
+        // Reorg headers belong to another fork, their total difficulties are NOT bounded by
+        // the difficulty boundary; so only count the headers after them.
+        let before_boundary_count = reorg_count
+            + headers[reorg_count..]
+                .iter()
+                .take_while(|h| h.total_difficulty() < difficulty_boundary)
+                .count();
         let last_n_count = total_count - before_boundary_count;
         if last_n_count > last_n_blocks {
             (before_boundary_count - reorg_count, last_n_count)
@@ -769,7 +772,7 @@ pub(crate) fn check_if_response_is_matched(
             let last_last_n_header_number = headers[headers.len() - 1].header().number();
             let last_number = last_header.header().number();
             if first_last_n_header_number != start_number
-                || last_last_n_header_number + 1 != last_number
+                || last_last_n_header_number.checked_add(1) != Some(last_number)
             {
                 let errmsg = format!(
                 "there should be all blocks of [{}, {}) since no sampled blocks, but got [{}, {}]",
